@@ -4,7 +4,8 @@
 (* extends it by one character.                                              *)
 EXTENDS X509Time, Json
 CONSTANT MaxEdits
-Alphabet == {"0", "9", "5", "+", "-", " ", "Z", "a"}
+\* (with the characters that sit right next to the digits in ASCII: "/" before "0", ":" ... "?" after "9", "@")
+Alphabet == {"0", "9", "5", "+", "-", " ", "Z", "a", "/", ":", ";", "<", "?", "@"}
 Bases == {<<"utc", <<2023, 1, 31, 23, 59, 59>>>>, <<"gen", <<2050, 2, 28, 0, 0, 0>>>>}
 VARIABLES tag, s, edits
 vars == <<tag, s, edits>>
